@@ -647,6 +647,135 @@ def sec_traverse(m):
     return lines
 
 
+# ---------------------------------------------------------------------------
+# tree_generator.py (C20): lexical structure the model of RandomTree.v relies on
+# ---------------------------------------------------------------------------
+def tree_generator_facts(lines):
+    tg = parse("tree_generator.py")
+    mk = func_def(tg, "_make_tree")
+    # spec.pop("<key>", default) in _make_tree, in source order
+    pops = [n for n in ast.walk(mk) if isinstance(n, ast.Call) and isinstance(n.func, ast.Attribute) and n.func.attr == "pop"
+            and isinstance(n.func.value, ast.Name) and n.func.value.id == "spec"]
+    pops.sort(key=lambda n: (n.lineno, n.col_offset))
+    if not pops or any(len(n.args) != 2 for n in pops):
+        raise Unsupported("_make_tree: spec.pop(key, default) calls not found")
+    lines.append("Definition TG_POPPED : list (list Z) := [" + "; ".join(text(const_str(n.args[0])) for n in pops) + "].")
+    cnt = [n for n in pops if const_str(n.args[0]) == ":count"]
+    if len(cnt) != 1 or not (isinstance(cnt[0].args[1], ast.Constant) and type(cnt[0].args[1].value) is int):
+        raise Unsupported("_make_tree: default of :count is not an int literal")
+    lines.append(f"Definition TG_COUNT_DEFAULT : Z := {cnt[0].args[1].value}%Z.")
+    ors = [n for n in ast.walk(mk) if isinstance(n, ast.BoolOp) and isinstance(n.op, ast.Or) and len(n.values) == 2
+           and isinstance(n.values[0], ast.Call) and getattr(n.values[0].func, "id", "") == "_resolve_random"
+           and isinstance(n.values[1], ast.Constant) and type(n.values[1].value) is int]
+    if len(ors) != 1:
+        raise Unsupported("_make_tree: `count = _resolve_random(count) or <int>` not found")
+    lines.append(f"Definition TG_COUNT_OR : Z := {ors[0].values[1].value}%Z.")
+    # for i in range(count): i += 1
+    loops = [n for n in ast.walk(mk) if isinstance(n, ast.For) and isinstance(n.iter, ast.Call) and getattr(n.iter.func, "id", "") == "range"]
+    if len(loops) != 1 or not (len(loops[0].iter.args) == 1 and getattr(loops[0].iter.args[0], "id", "") == "count"):
+        raise Unsupported("_make_tree: `for i in range(count)` not found")
+    first = loops[0].body[0]
+    if not (isinstance(first, ast.AugAssign) and isinstance(first.op, ast.Add) and getattr(first.target, "id", "") == loops[0].target.id
+            and isinstance(first.value, ast.Constant) and type(first.value.value) is int):
+        raise Unsupported("_make_tree: `i += <int>` is not the first statement of the child loop")
+    lines.append(f"Definition TG_IDX_BASE : Z := {first.value.value}%Z.")
+    # macros={"idx": i, "hier_idx": p}
+    mac = [kw.value for n in ast.walk(mk) if isinstance(n, ast.Call) for kw in n.keywords if kw.arg == "macros"]
+    if len(mac) != 1 or not isinstance(mac[0], ast.Dict) or not all(isinstance(v, ast.Name) for v in mac[0].values):
+        raise Unsupported("_make_tree: macros={...} dict literal not found")
+    lines.append("Definition TG_MACROS : list (list Z * list Z) := [" +
+                 "; ".join(f"({text(const_str(k))}, {text(v.id)})" for k, v in zip(mac[0].keys, mac[0].values)) + "].")
+    # p = f"{prefix}.{i}" if prefix else f"{i}"
+    ps = [n for n in ast.walk(mk) if isinstance(n, ast.Assign) and getattr(n.targets[0], "id", "") == "p" and isinstance(n.value, ast.IfExp)]
+    ok = False
+    if len(ps) == 1:
+        e = ps[0].value
+        j1, j2 = e.body, e.orelse
+        ok = (getattr(e.test, "id", "") == "prefix" and isinstance(j1, ast.JoinedStr) and isinstance(j2, ast.JoinedStr)
+              and len(j1.values) == 3 and isinstance(j1.values[0], ast.FormattedValue) and getattr(j1.values[0].value, "id", "") == "prefix"
+              and isinstance(j1.values[1], ast.Constant) and isinstance(j1.values[2], ast.FormattedValue)
+              and getattr(j1.values[2].value, "id", "") == "i" and len(j2.values) == 1
+              and isinstance(j2.values[0], ast.FormattedValue) and getattr(j2.values[0].value, "id", "") == "i")
+    if not ok:
+        raise Unsupported('_make_tree: `p = f"{prefix}<sep>{i}" if prefix else f"{i}"` not found')
+    lines.append(f"Definition TG_HIER_SEP : list Z := {text(ps[0].value.body.values[1].value)}.")
+    # _merge_specs: order of the three sources
+    mg = func_def(tg, "_merge_specs")
+    src = []
+    for st in mg.body:
+        v = st.value if isinstance(st, (ast.Assign, ast.Expr)) else None
+        if isinstance(st, ast.Return):
+            continue
+        call = v
+        if isinstance(call, ast.Call) and isinstance(call.func, ast.Attribute) and call.func.attr == "copy":
+            call = call.func.value          # types.get("*", {}).copy()
+            arg = call
+        elif isinstance(call, ast.Call) and isinstance(call.func, ast.Attribute) and call.func.attr == "update" and len(call.args) == 1:
+            arg = call.args[0]
+        else:
+            raise Unsupported("_merge_specs: unexpected statement")
+        if isinstance(arg, ast.Name):
+            src.append(arg.id)
+        elif isinstance(arg, ast.Call) and isinstance(arg.func, ast.Attribute) and arg.func.attr == "get" and getattr(arg.func.value, "id", "") == "types":
+            k = arg.args[0]
+            src.append(const_str(k) if isinstance(k, ast.Constant) else k.id)
+        else:
+            raise Unsupported("_merge_specs: unexpected source")
+    lines.append("Definition TG_MERGE_ORDER : list (list Z) := [" + "; ".join(text(x) for x in src) + "].")
+    # Randomizer._skip_value: use = self.probability == 1.0 or random.random() <op> self.probability; return not use
+    sk = func_def(class_def(tg, "Randomizer"), "_skip_value")
+    cmp_ = [n for n in ast.walk(sk) if isinstance(n, ast.Compare) and isinstance(n.left, ast.Call) and isinstance(n.left.func, ast.Attribute)
+            and n.left.func.attr == "random"]
+    ret = [n for n in ast.walk(sk) if isinstance(n, ast.Return)]
+    if len(cmp_) != 1 or len(cmp_[0].ops) != 1 or len(ret) != 1 or not (isinstance(ret[0].value, ast.UnaryOp) and isinstance(ret[0].value.op, ast.Not)):
+        raise Unsupported("_skip_value: unexpected shape")
+    lines.append(f"Definition TG_SKIP_CMP : list Z := {text(type(cmp_[0].ops[0]).__name__)}.")
+    # every function of the random module / fabulist the file calls
+    calls = sorted({n.func.attr for n in ast.walk(tg) if isinstance(n, ast.Call) and isinstance(n.func, ast.Attribute)
+                    and isinstance(n.func.value, ast.Name) and n.func.value.id == "random"})
+    lines.append("Definition TG_RANDOM_CALLS : list (list Z) := [" + "; ".join(text(c) for c in calls) + "].")
+    uses = sorted({n.attr for n in ast.walk(tg) if isinstance(n, ast.Attribute) and isinstance(n.value, ast.Name) and n.value.id == "random"})
+    lines.append("Definition TG_RANDOM_USES : list (list Z) := [" + "; ".join(text(c) for c in uses) + "].")
+    # RangeRandomizer.generate: uniform / randrange on exactly (self.min, self.max)
+    rg = func_def(class_def(tg, "RangeRandomizer"), "generate")
+    rc = [n for n in ast.walk(rg) if isinstance(n, ast.Call) and isinstance(n.func, ast.Attribute) and getattr(n.func.value, "id", "") == "random"]
+    okr = sorted(n.func.attr for n in rc) == ["randrange", "uniform"] and all(
+        len(n.args) == 2 and not n.keywords and all(isinstance(a, ast.Attribute) and getattr(a.value, "id", "") == "self" for a in n.args)
+        and [a.attr for a in n.args] == ["min", "max"] for n in rc)
+    lines.append(f"Definition TG_RANGE_ARGS_OK : bool := {'true' if okr else 'false'}.")
+    # DateRangeRandomizer.generate: randrange(self.delta_days); stamp = (timestamp() + ONE_DAY_SEC) * 1000.0
+    dg = func_def(class_def(tg, "DateRangeRandomizer"), "generate")
+    dc = [n for n in ast.walk(dg) if isinstance(n, ast.Call) and isinstance(n.func, ast.Attribute) and getattr(n.func.value, "id", "") == "random"]
+    okd = (len(dc) == 1 and dc[0].func.attr == "randrange" and len(dc[0].args) == 1 and isinstance(dc[0].args[0], ast.Attribute)
+           and dc[0].args[0].attr == "delta_days")
+    st = [n for n in ast.walk(dg) if isinstance(n, ast.Assign) and getattr(n.targets[0], "id", "") == "stamp_ms"]
+    oks = False
+    if len(st) == 1:
+        e = st[0].value
+        oks = (isinstance(e, ast.BinOp) and isinstance(e.op, ast.Mult) and isinstance(e.right, ast.Constant) and e.right.value == 1000.0
+               and isinstance(e.left, ast.BinOp) and isinstance(e.left.op, ast.Add) and getattr(e.left.right, "id", "") == "ONE_DAY_SEC"
+               and isinstance(e.left.left, ast.Call) and getattr(e.left.left.func, "attr", "") == "timestamp")
+    one = [n for n in ast.walk(dg) if isinstance(n, ast.Assign) and getattr(n.targets[0], "id", "") == "ONE_DAY_SEC"]
+    try:
+        one_v = eval(compile(ast.Expression(one[0].value), "<one>", "eval"), {"__builtins__": {}}) if len(one) == 1 else None
+    except Exception:
+        one_v = None
+    lines.append(f"Definition TG_DATE_OK : bool := {'true' if okd and oks and one_v == 86400 else 'false'}.")
+    # build_random_tree: the root relation key, and the '*' key of _merge_specs
+    br = func_def(tg, "build_random_tree")
+    roots = [kw.value for n in ast.walk(br) if isinstance(n, ast.Call) and getattr(n.func, "id", "") == "_make_tree"
+             for kw in n.keywords if kw.arg == "parent_type"]
+    if len(roots) != 1:
+        raise Unsupported("build_random_tree: _make_tree(parent_type=...) not found")
+    lines.append(f"Definition TG_ROOT : list Z := {text(const_str(roots[0]))}.")
+
+
+def sec_treegen(m):
+    lines = []
+    tree_generator_facts(lines)
+    return lines
+
+
 def sec_lock(m):
     tree, typed, fs, dot = m["tree"], m["typed"], m["fs"], m["dot"]
     tcls = class_def(tree, "Tree")
@@ -693,6 +822,7 @@ SECTIONS = [
     ("MERMAID", sec_mermaid, ["mermaid"]),
     ("EXPORT", sec_export, ["mermaid", "dot"]),
     ("TRAVERSE", sec_traverse, ["node"]),
+    ("TREEGEN", sec_treegen, []),
     ("LOCK", sec_lock, ["tree", "typed", "fs", "dot", "node"]),
 ]
 FILES = dict(common="common.py", tree="tree.py", typed="typed_tree.py", fs="fs.py", diff="diff.py", mermaid="mermaid.py",
